@@ -23,7 +23,12 @@ type Node struct {
 	T   types.Type
 	Fn  interface{} // *ssa.Function of a static callee (call nodes)
 	Ord int         // >1: the n-th syntactically identical call in its function (rendered name@n)
+	// Alt: for a call of a private single-call-site value helper, the returned expression over
+	// the arguments. Normal rendering shows the call; the expanded rendering (StringX) shows Alt,
+	// i.e. what the code looked like before the lines were extracted into the helper.
+	Alt *Node
 	s   string
+	sx  string
 }
 
 func (n *Node) String() string {
@@ -33,20 +38,50 @@ func (n *Node) String() string {
 	if n.s != "" {
 		return n.s
 	}
-	n.s = n.render(0)
+	n.s = n.render(0, false)
 	return n.s
+}
+
+// StringX renders the tree with helper calls replaced by their expressions.
+func (n *Node) StringX() string {
+	if n == nil {
+		return "?"
+	}
+	if n.sx != "" {
+		return n.sx
+	}
+	n.sx = n.render(0, true)
+	return n.sx
+}
+
+func (n *Node) hasAlt() bool {
+	if n == nil {
+		return false
+	}
+	if n.Alt != nil {
+		return true
+	}
+	for _, c := range n.A {
+		if c.hasAlt() {
+			return true
+		}
+	}
+	return false
 }
 
 const maxRenderDepth = 14
 
-func (n *Node) render(d int) string {
+func (n *Node) render(d int, x bool) string {
 	if n == nil {
 		return "?"
 	}
 	if d > maxRenderDepth {
 		return "…"
 	}
-	r := func(i int) string { return n.A[i].render(d + 1) }
+	if x && n.Alt != nil {
+		return n.Alt.render(d, false) // one level: helpers inside the helper stay calls
+	}
+	r := func(i int) string { return n.A[i].render(d+1, x) }
 	all := func(from int) string {
 		var sb []string
 		for i := from; i < len(n.A); i++ {
@@ -154,7 +189,11 @@ func (n *Node) Subst(bind []*Node) *Node {
 	if !changed {
 		return n
 	}
-	return &Node{K: n.K, L: n.L, A: na, T: n.T, Fn: n.Fn, Ord: n.Ord}
+	nn := &Node{K: n.K, L: n.L, A: na, T: n.T, Fn: n.Fn, Ord: n.Ord}
+	if n.Alt != nil {
+		nn.Alt = n.Alt.Subst(bind)
+	}
+	return nn
 }
 
 // Walk calls f on every node of the tree.
@@ -250,6 +289,36 @@ func (f *Fact) Key() string {
 	}
 	f.key = f.Kind + "(" + strings.Join(sb, ", ") + ")"
 	return f.key
+}
+
+// KeyX is Key with helper calls expanded; "" when nothing would change.
+func (f *Fact) KeyX() string {
+	if f.Kind == "forall" {
+		if k := f.Sub.KeyX(); k != "" {
+			return "forall(" + k + ")"
+		}
+		return ""
+	}
+	if f.Kind == "when" {
+		return ""
+	}
+	any := false
+	for _, a := range f.A {
+		if a.hasAlt() {
+			any = true
+		}
+	}
+	if !any {
+		return ""
+	}
+	var sb []string
+	for _, a := range f.A {
+		sb = append(sb, a.StringX())
+	}
+	if (f.Kind == "eq" || f.Kind == "ne") && len(sb) == 2 && sb[0] > sb[1] {
+		sb[0], sb[1] = sb[1], sb[0]
+	}
+	return f.Kind + "(" + strings.Join(sb, ", ") + ")"
 }
 
 func (f *Fact) Subst(bind []*Node, via string) *Fact {
@@ -405,6 +474,19 @@ func (s FactSet) Has(pat string) (string, bool) {
 		}
 		if k, ok := s.impliedOrder(alt); ok {
 			return k, true
+		}
+	}
+	// last resort: the same facts with private value helpers written out
+	for _, f := range s {
+		kx := f.KeyX()
+		if kx == "" {
+			continue
+		}
+		for _, alt := range alts {
+			alt = strings.TrimSpace(alt)
+			if kx == alt || (strings.Contains(alt, "*") && Glob(alt, kx)) {
+				return f.Key(), true
+			}
 		}
 	}
 	return "", false
